@@ -119,7 +119,7 @@ pub fn check_case(c: &Case, env: &Env) -> CheckResult {
                         Step::W(op) => {
                             let exp = model_wop(op, e, wb, &mut m);
                             let got = match op {
-                                WOp::Bits { v, n } => w.write_bits(*v, *n as usize).map(Some),
+                                WOp::Bits { v, n } => w.write_bits(clean_arg(*v, *n as usize), *n as usize).map(Some),
                                 WOp::Unary(x) => w.write_unary(*x).map(Some),
                                 WOp::Flush => w.flush().map(Some),
                                 WOp::Code { call, v } => w.write_code(call, *v).map(Some),
